@@ -67,7 +67,7 @@ structure Opts where
   /-- `reference.clear();` is emitted before the `push_back` loop (the template as it is) -/
   clearFirst : Bool := true
 
-/-- The oracle claims "aligned" only when every offset the descriptor admits is. -/
+/-- The oracle claims "aligned" only when every offset the descriptor allows is. -/
 def Opts.Sound (o : Opts) : Prop := ∀ d, o.orc d = true → d.isAligned = true
 
 /-- `NUNAVUT_ASSERT(c);` followed by `k` -/
